@@ -216,7 +216,9 @@ func (ctx *cmdContext) infoUnlocked(cs *clientState) string {
 	if cs.client.IsCloseRequested() {
 		flags.WriteRune('c')
 	}
-	if isAbortedExecUnlocked(cs) {
+	if cs == ctx.cs && isAbortedExecUnlocked(cs) {
+		// only for the calling client: the watches of another connection belong to
+		// its goroutine and can't be examined from here
 		flags.WriteRune('d')
 	}
 	if cs.isMultiInProgress() {
@@ -227,15 +229,22 @@ func (ctx *cmdContext) infoUnlocked(cs *clientState) string {
 		flags.WriteString("N")
 	}
 
+	// cs can be another connection's state: its session fields are guarded by its mutex
+	cs.mu.Lock()
+	name := cs.name
+	selectedDb := cs.selectedDb
+	respVersion := cs.respVersion
+	cs.mu.Unlock()
+
 	info = append(info,
 		fmt.Sprintf("id=%d", cs.id),
-		"name="+cs.name,
-		fmt.Sprintf("db=%d", cs.selectedDb),
+		"name="+name,
+		fmt.Sprintf("db=%d", selectedDb),
 		fmt.Sprintf("multi=%d", multi),
 		fmt.Sprintf("flags=%s", flags.String()),
 		"cmd="+ctx.cmdToken,
 		"user="+cs.user,
-		fmt.Sprintf("resp=%d", cs.respVersion),
+		fmt.Sprintf("resp=%d", respVersion),
 	)
 
 	var sb strings.Builder
